@@ -204,8 +204,15 @@ var table = map[string]spec{
 	}},
 	"netmap.updateStateIR/2": {kind: kAlphabet, args: func(p *prep) []any { return []any{int64(3), p.node0.PublicKey().Bytes()} }},
 	// ---- nns
-	"nns.addRecord/3":     {kind: kKey, alt: adminAlone, key: func(p *prep) *keys.PrivateKey { return p.u0k }, args: func(p *prep) []any { return []any{"own.com", int64(16), "second"} }},
-	"nns.deleteRecords/2": {kind: kKey, alt: adminAlone, key: func(p *prep) *keys.PrivateKey { return p.u0k }, args: func(p *prep) []any { return []any{"own.com", int64(16)} }},
+	// lapsed.com: registered by u1 with the appointed admin of own.com as its admin, expired, registered anew by an
+	// account that signs nothing here: neither u1 nor that admin has any say in it now (seeded change C03-12: the admin
+	// of an expired registration carried over into the next one)
+	"nns.addRecord/3": {kind: kKey, alt: adminAlone, key: func(p *prep) *keys.PrivateKey { return p.u0k }, args: func(p *prep) []any { return []any{"own.com", int64(16), "second"} }, never: func(p *prep) [][]any {
+		return [][]any{{"lapsed.com", int64(16), "by a former party"}}
+	}},
+	"nns.deleteRecords/2": {kind: kKey, alt: adminAlone, key: func(p *prep) *keys.PrivateKey { return p.u0k }, args: func(p *prep) []any { return []any{"own.com", int64(16)} }, never: func(p *prep) [][]any {
+		return [][]any{{"lapsed.com", int64(16)}}
+	}},
 	"nns.register/7": {kind: kKey, key: func(p *prep) *keys.PrivateKey { return p.u1k }, args: func(p *prep) []any {
 		return []any{"fresh.com", p.u1.ScriptHash(), "a@b.c", int64(1), int64(1), int64(1000), int64(1)}
 	}, never: func(p *prep) [][]any {
@@ -216,7 +223,9 @@ var table = map[string]spec{
 	}},
 	"nns.registerTLD/6": {kind: kMajority, args: func(p *prep) []any { return []any{"org", "a@b.c", int64(1), int64(1), int64(1000), int64(1)} }},
 	"nns.renew/2":       {kind: kKey, key: func(p *prep) *keys.PrivateKey { return p.u0k }, args: func(p *prep) []any { return []any{"own.com", int64(1)} }},
-	"nns.renew/1":       {kind: kKey, key: func(p *prep) *keys.PrivateKey { return p.u0k }, args: func(p *prep) []any { return []any{"own.com"} }},
+	"nns.renew/1": {kind: kKey, key: func(p *prep) *keys.PrivateKey { return p.u0k }, args: func(p *prep) []any { return []any{"own.com"} }, never: func(p *prep) [][]any {
+		return [][]any{{"lapsed.com"}}
+	}},
 	"nns.setAdmin/2": {kind: kOwnerAdmin, key: func(p *prep) *keys.PrivateKey { return p.u0k }, key2: func(p *prep) *keys.PrivateKey { return p.u1k }, args: func(p *prep) []any {
 		return []any{"own.com", p.u1.ScriptHash()}
 	}},
@@ -409,8 +418,13 @@ func runMethod(b *runner.Batch, n int, art, method string, arity int, s spec) {
 		sets = append(sets, s.extra(p)...)
 	}
 	if s.never != nil {
+		nsets := sets
+		if strings.HasPrefix(key, "nns.") {
+			// the appointed admin of own.com (and former admin of lapsed.com) is one more party without a say
+			nsets = append(append([]signerSet{}, sets...), adminAlone(p)...)
+		}
 		for ai, args := range s.never(p) {
-			for _, ss := range sets {
+			for _, ss := range nsets {
 				r := p.w.Invoke(ss.signers, h, method, args...)
 				b.Tx(1)
 				if !(r.Rejected != "" || r.Faulted() || (r.Halted() && r.Diff.Empty() && len(r.Events) == 0 && tokenMoves(p.w, r) == 0)) {
